@@ -3,6 +3,9 @@ Driver operations of family `hostile` (C12): what the model answers for an untru
 
   (hostile.cavs x<msgpack> <tag>)                          →  <ok|err> nopanic alloc:fine
   (hostile.mac  x<msgpack> <tag>)                          →  <ok|err> nopanic alloc:fine
+  (hostile.ticket x<msgpack> <tag>)                        →  <ok|err> nopanic alloc:fine   (the PLAINTEXT of a third-party
+                                                               ticket; the harness seals it for the third party's key and
+                                                               hands it to `macaroon.DischargeTicket`: `decodeTicket`)
   (hostile.json x<utf8> <tag>) / (hostile.hdr x<utf8> <tag>) →  ? nopanic alloc:fine      (no such layer in the model)
   (hostile.rep.cavs x<prefix> x<unit> <n> x<suffix> <tag>) →  <ok|err> nopanic alloc:fine child:ok
   (hostile.rep.mac  …)                                          on the input prefix ++ unit^n ++ suffix
@@ -68,6 +71,10 @@ def evalOpHostile : Sx → Option String
     let b ← b.bytes?
     if tagExtMap tag then some ("?" ++ hostileTail) else
     some (okErr (decodeMac defaultFuel b) ++ hostileTail)
+  | .list [.atom "hostile.ticket", b, tag] => do
+    let b ← b.bytes?
+    if tagExtMap tag then some ("?" ++ hostileTail) else
+    some (okErr (decodeTicket defaultFuel b) ++ hostileTail)
   | .list [.atom "hostile.json", b, _] => do
     let _ ← b.bytes?
     some ("?" ++ hostileTail)
